@@ -126,6 +126,10 @@ func (p *P) Tail() {
 	p.Lookup(p.Root, "tail-file")
 	p.Remove(p.Root, "tail-file")
 	p.Dump()
+	if !p.S.Wedged {
+		p.S.WaitIdle()
+		p.T.Emit(TakeSnap(p.S, "run", true))
+	}
 }
 
 type Probe struct {
